@@ -182,6 +182,21 @@ CLAIMED['C15'] = dict(
           "kernel law K4 for shapely's round-join buffer (sampled, tolerance twice the arc discretisation)."),
     ref="DESIGN.md section 4 C15")
 
+CLAIMED['C10'] = dict(
+    technique="Coq proofs over R (piecewise-chain lemma, arc/trig lemmas, nsatz) about tables regenerated from generic_elongation.py by translator T-D; hand-written roll-surface (R) and spline (Q) models tied by differential runs",
+    text=("For every parameter vector satisfying `wellformed` (documented ranges, ordered junctions, no step at z4 - measured to hold on all "
+          "catalogue grooves), every sampling density and both halves: each contour vertex lies on the depth function computed by numpy's "
+          "piecewise over the regenerated table; neighbouring analytic pieces agree at all six junctions; the depth function is even; the "
+          "polyline is its own mirror image.  Roll surface: grid = contour at x = 0, surface of revolution off it, even in x, x grid "
+          "antisymmetric; bilinear cell reproduces its four nodes and is mirror symmetric in both directions.  Spline groove (Q, closed "
+          "under the global context): depth function through every vertex, invariant under insertion of collinear vertices anywhere, centre "
+          "invariant under any resampling within the extent, extent symmetric after centring; the pinned mean-centring is a refuted witness. "
+          "Partial: cell location of interpn/interp1d and float rounding are abstracted; closure at z4 is a hypothesis (C04)."),
+    note=("Trusted: Coq kernel; Reals axioms for the R part (spline part axiom free); translator T-D validated on every catalogue groove "
+          "(junction attributes, contour_points, local_depth rebuilt from the regenerated terms); Surface.v hand-written, spline part tied by "
+          "exact rational vm_compute correspondence with SplineGroove, surface part by identities measured on real Roll objects."),
+    ref="DESIGN.md section 4 C10")
+
 NOT_YET = {}
 
 
